@@ -74,6 +74,27 @@ class SymPath:
     def calls(self, name: str | None = None, *, inlined: bool | None = None) -> list[Event]:
         return [e for e in self.events if e.kind == "call" and (name is None or e.callee == name) and (inlined is None or e.inlined == inlined)]
 
+    def literals(self) -> list:
+        """the atomic facts established on this path: (test, polarity) with `not`, true conjunctions and
+        false disjunctions taken apart"""
+        out = []
+
+        def add(t, pol):
+            if isinstance(t, ast.UnaryOp) and isinstance(t.op, ast.Not):
+                add(t.operand, not pol)
+            elif isinstance(t, ast.BoolOp) and isinstance(t.op, ast.And) and pol:
+                for v in t.values:
+                    add(v, True)
+            elif isinstance(t, ast.BoolOp) and isinstance(t.op, ast.Or) and not pol:
+                for v in t.values:
+                    add(v, False)
+            else:
+                out.append((t, pol))
+
+        for t, pol, _ in self.conds:
+            add(t, pol)
+        return out
+
     def cond_text(self) -> str:
         return " and ".join(("" if p else "not ") + "(" + unparse(t) + ")" for t, p, _ in self.conds)
 
